@@ -4,8 +4,11 @@ From Coq Require Import List Bool NArith.
 From Falco Require Import Model.Decor.
 Import ListNotations.
 
+Section Generic.
+Context {K A : Type}.
+
 (* the line-feed flag is irrelevant when no annotation follows before the next significant token *)
-Lemma flag_irrelevant : forall ts lf lf' acc,
+Lemma flag_irrelevant : forall (ts : list (tok K A)) lf lf' acc,
   no_ann_ahead ts = true -> pump_go lf acc ts = pump_go lf' acc ts.
 Proof.
   induction ts as [|t r IH]; intros lf lf' acc H; [reflexivity|].
@@ -13,21 +16,21 @@ Proof.
 Qed.
 
 (* processing a prefix *)
-Lemma insert_cmt : forall t1 t2 lf acc,
+Lemma insert_cmt : forall (t1 t2 : list (tok K A)) lf acc,
   pump_go lf acc (t1 ++ Cmt :: t2) = pump_go lf acc (t1 ++ t2).
 Proof.
   induction t1 as [|t r IH]; intros t2 lf acc; [reflexivity|].
   destruct t; cbn; rewrite ?IH; reflexivity.
 Qed.
 
-Lemma insert_blank : forall t1 t2 lf acc,
+Lemma insert_blank : forall (t1 t2 : list (tok K A)) lf acc,
   pump_go lf acc (t1 ++ Blank :: t2) = pump_go lf acc (t1 ++ t2).
 Proof.
   induction t1 as [|t r IH]; intros t2 lf acc; [reflexivity|].
   destruct t; cbn; rewrite ?IH; reflexivity.
 Qed.
 
-Lemma insert_lf_free : forall t1 t2 lf acc,
+Lemma insert_lf_free : forall (t1 t2 : list (tok K A)) lf acc,
   no_ann_ahead t2 = true ->
   pump_go lf acc (t1 ++ LF :: t2) = pump_go lf acc (t1 ++ t2).
 Proof.
@@ -36,7 +39,7 @@ Proof.
   - destruct t; cbn; rewrite ?IH; auto.
 Qed.
 
-Lemma insert_lf_seen : forall t1 t2 lf acc,
+Lemma insert_lf_seen : forall (t1 t2 : list (tok K A)) lf acc,
   flag_after lf t1 = true ->
   pump_go lf acc (t1 ++ LF :: t2) = pump_go lf acc (t1 ++ t2).
 Proof.
@@ -45,7 +48,7 @@ Proof.
   - destruct t; cbn in *; rewrite ?IH; auto.
 Qed.
 
-Theorem pump_decorate : forall ts ts', decorate ts ts' -> pump ts' = pump ts.
+Theorem pump_decorate : forall ts ts' : list (tok K A), decorate ts ts' -> pump ts' = pump ts.
 Proof.
   unfold pump. induction 1.
   - reflexivity.
@@ -57,30 +60,30 @@ Proof.
   - apply insert_lf_seen. assumption.
 Qed.
 
-Theorem pump_strip : forall ts ts', decorate ts ts' -> significant ts' = significant ts.
+Theorem pump_strip : forall ts ts' : list (tok K A), decorate ts ts' -> significant ts' = significant ts.
 Proof. intros. unfold significant. f_equal. apply pump_decorate. assumption. Qed.
 
-Theorem annotations_stable : forall ts ts', decorate ts ts' -> annotations ts' = annotations ts.
+Theorem annotations_stable : forall ts ts' : list (tok K A), decorate ts ts' -> annotations ts' = annotations ts.
 Proof. intros. unfold annotations. f_equal. apply pump_decorate. assumption. Qed.
 
 (* every consumer that is a function of the significant tokens and the annotations is inert *)
 Section Core.
 Variable R : Type.
-Variable parse_core : list N -> R.                              (* the parser core *)
-Variable lint_core : list N -> list (list (N * bool)) -> R.     (* linter / interpreter: + annotations *)
+Variable parse_core : list K -> R.                              (* the parser core *)
+Variable lint_core : list K -> list (list (A * bool)) -> R.     (* linter / interpreter: + annotations *)
 
-Theorem parse_core_inert : forall ts ts',
+Theorem parse_core_inert : forall ts ts' : list (tok K A),
   decorate ts ts' -> parse_core (significant ts') = parse_core (significant ts).
 Proof. intros. f_equal. apply pump_strip. assumption. Qed.
 
-Theorem lint_core_inert : forall ts ts',
+Theorem lint_core_inert : forall ts ts' : list (tok K A),
   decorate ts ts' ->
   lint_core (significant ts') (annotations ts') = lint_core (significant ts) (annotations ts).
 Proof. intros ts ts' H. rewrite (pump_strip _ _ H), (annotations_stable _ _ H). reflexivity. Qed.
 End Core.
 
 (* moving an ordinary comment from one gap to another is a decoration *)
-Lemma move_comment : forall t1 t2 t3,
+Lemma move_comment : forall t1 t2 t3 : list (tok K A),
   decorate (t1 ++ Cmt :: t2 ++ t3) (t1 ++ t2 ++ Cmt :: t3).
 Proof.
   intros. eapply d_trans.
@@ -90,21 +93,23 @@ Proof.
     apply d_cmt.
 Qed.
 
+End Generic.
+
 (* ---- witnesses *)
 (* `case "a" : ... case "a" /* x */ :` -- tokens: case=1 "a"=2 colon=3 *)
-Definition dup_plain : list tok := [Sig 1; Blank; Sig 2; Sig 3; LF; Sig 1; Blank; Sig 2; Sig 3].
-Definition dup_commented : list tok := [Sig 1; Blank; Sig 2; Sig 3; LF; Sig 1; Blank; Sig 2; Blank; Cmt; Sig 3].
+Definition dup_plain : list (tok N N) := [Sig 1%N; Blank; Sig 2%N; Sig 3%N; LF; Sig 1%N; Blank; Sig 2%N; Sig 3%N].
+Definition dup_commented : list (tok N N) := [Sig 1%N; Blank; Sig 2%N; Sig 3%N; LF; Sig 1%N; Blank; Sig 2%N; Blank; Cmt; Sig 3%N].
 
 Example dup_is_decoration : decorate dup_plain dup_commented.
 Proof.
   unfold dup_plain, dup_commented.
   eapply d_trans.
-  - exact (d_blank [Sig 1; Blank; Sig 2; Sig 3; LF; Sig 1; Blank; Sig 2] [Sig 3]).
-  - exact (d_cmt [Sig 1; Blank; Sig 2; Sig 3; LF; Sig 1; Blank; Sig 2; Blank] [Sig 3]).
+  - exact (d_blank [Sig 1%N; Blank; Sig 2%N; Sig 3%N; LF; Sig 1%N; Blank; Sig 2%N] [Sig 3%N]).
+  - exact (d_cmt [Sig 1%N; Blank; Sig 2%N; Sig 3%N; LF; Sig 1%N; Blank; Sig 2%N; Blank] [Sig 3%N]).
 Qed.
 
 Example pump_example :
-  pump [Cmt; LF; Ann 7; LF; Sig 1; Blank; Cmt; Sig 2; Ann 8; LF; Cmt; Ann 9; Sig 3]
+  pump [Cmt; LF; Ann 7%N; LF; Sig 1%N; Blank; Cmt; Sig 2%N; Ann 8%N; LF; Cmt; Ann 9%N; Sig 3%N]
   = [(1%N, [(7%N, true)]); (2%N, []); (3%N, [(8%N, false); (9%N, true)])].
 Proof. reflexivity. Qed.
 
@@ -114,7 +119,7 @@ Proof. reflexivity. Qed.
    renderings the two `case "a"` labels of the decorated variant are different labels; with the
    comparison of values (the repair) they are the same in both. *)
 Theorem rendered_text_refuted :
-  exists ts ts', decorate ts ts' /\ rendered ts' <> rendered ts.
+  exists ts ts' : list (tok N N), decorate ts ts' /\ rendered ts' <> rendered ts.
 Proof.
   exists dup_plain, dup_commented. split; [apply dup_is_decoration|]. cbn. discriminate.
 Qed.
@@ -122,5 +127,5 @@ Qed.
 (* an insertion of a line feed in front of an annotation that had none is NOT a decoration in the
    sense above, and indeed changes what the linter sees: the side condition of d_lf_* is needed *)
 Theorem lf_before_annotation_refuted :
-  exists t1 t2, annotations (t1 ++ LF :: t2) <> annotations (t1 ++ t2).
-Proof. exists [Sig 1], [Ann 5; Sig 2]. cbn. discriminate. Qed.
+  exists t1 t2 : list (tok N N), annotations (t1 ++ LF :: t2) <> annotations (t1 ++ t2).
+Proof. exists [Sig 1%N], [Ann 5%N; Sig 2%N]. cbn. discriminate. Qed.
